@@ -545,6 +545,36 @@ def r6_12(ctx):
                     ctx.check(any(n.kind == "call" and n.at == (bb, "term") for n in cfg.walk()), "config-from-brace", f.loc(d[0]),
                               "the configuration text is the info string from the `{` on", "the configuration text is %s" % cfg.show()[:80])
         ctx.check(n_cfg >= 1, "config-result", f.where(), "a result with a non-empty configuration exists")
+    from . import c17
+    c17.config_uncut(ctx)
+
+
+def r6_16(ctx):
+    """blanks around the info string decide nothing: the language that is compared with the test languages has lost leading and trailing
+    blanks, the configuration text its trailing ones (```scrut<blank> is a scrut block; ```scrut {..}<blank> keeps its configuration)"""
+    f = ctx.prog.fn("extract_code_block_start")
+    o = Origins(f)
+    n = 0
+    for d in f.defs.get(0, []):
+        tree = o._def(d, 0, ())
+        if not (tree.kind == "agg" and tree.a[0].endswith("Some")):
+            continue
+        tup = peel(tree.kids[0])
+        if not (tup.kind == "agg" and len(tup.kids) == 3):
+            continue
+        lang, cfg = tup.kids[1], tup.kids[2]
+        names = {method_name(c).split("::")[-1] for c in lang.call_names()}
+        both = "trim" in names or ({"trim_start", "trim_end"} <= names) or ({"trim_start_matches", "trim_end_matches"} <= names and False)
+        n += 1
+        ctx.check(both, "language-trimmed#%d" % n, f.loc(d[0]), "the language component has passed a trim of both ends",
+                  "the language is `%s`: blanks between the backticks and the language or behind it stay part of the language, ```scrut<blank> is not a test language "
+                  "and the block's test is silently dropped" % lang.show()[:100])
+        if peel(cfg).kind != "const":
+            cn = {method_name(c).split("::")[-1] for c in cfg.call_names()}
+            ctx.check("trim" in cn or "trim_end" in cn, "config-trimmed#%d" % n, f.loc(d[0]), "the configuration text has lost trailing blanks",
+                      "the configuration text is `%s`: with a trailing blank it no longer ends in `}` and the whole inline configuration is silently ignored" % cfg.show()[:100])
+    if n < 2:
+        ctx.bad("info-string-results", f.where(), "only %d Some((fence, language, config)) results found in extract_code_block_start (2 confirmed by reading)" % n)
 
 
 def _non_identity(tree, is_read, is_local=lambda n: False):
@@ -684,6 +714,7 @@ def run(ctx):
     ctx.run_rule("R6.12", "fence info string: configuration = from the first `{` on, language = what precedes it; no other split [E-TABLE of accepted forms]", r6_12, floor=3)
     ctx.run_rule("R6.13", "parser state hygiene: every Ok path of LineParser::end_testcase flushes the state or resets the parsed exit code (shared with C07 R7.6) [E-PATH must-pass]", c07.parser_state_rules, floor=2)
     ctx.run_rule("R6.14", "title: every line appended to the pending title paragraph is committed (set_testcase_title(join)) before the next token is read [E-PATH must-pass]", r6_14, floor=3)
+    ctx.run_rule("R6.16", "info string: blanks around it decide nothing - the language has lost leading and trailing blanks, the configuration its trailing ones (F28) [E-FLOW]", r6_16, floor=3)
     ctx.run_rule("R6.15", "lines verbatim: the line source returns the Lines::next item itself and every token field / pushed tuple holds the read line copied only (no trim / cut / case change) (shared with C10 R10.11) [E-FLOW]", r6_15, floor=5)
     ctx.run_rule("R6.9", "closing-fence predicate is a prefix test against the opener's fence (equality would reject longer closing fences) [E-TABLE of accepted forms]", r6_9, floor=3)
     ctx.run_rule("R6.8", "read_file normalises CRLF through replace_crlf before parsing [E-FLOW]", r6_8, floor=1)
